@@ -119,7 +119,9 @@ func ruleGC(c *Ctx, rule string) {
 			k, ok := v.(*ssa.Const)
 			return ok && strings.Contains(k.Type().String(), "PodSandboxState") && k.Int64() == 1
 		}))
-		all := newCut().edge(grpcNF...).edge(k8sNF...).edge(dockerNF...).edge(dead...).edge(notReady...)
+		// apierrors.IsNotFound(pod) is a classifier only INSIDE the sandbox-not-ready branch, so it is not removed here:
+		// a `return true` reached through it without the NOTREADY edge is a violation
+		all := newCut().edge(grpcNF...).edge(dockerNF...).edge(dead...).edge(notReady...)
 		r := reachFromEntry(fn, all)
 		bad := 0
 		for _, t := range trues {
@@ -165,6 +167,21 @@ func ruleGC(c *Ctx, rule string) {
 			}
 		}
 		c.ob(rule, fn, "no decision without asking the container runtime", nil, asked && len(insp) == 2, "every path to a return passes an inspect call")
+	}
+	// the state file is the only record of what to clean: the port-clean callback runs before the file is removed
+	if fn := c.MustFn(rule, gcPkg, "(*flannelGC).removeLeakyStateFile"); fn != nil {
+		var cb []ssa.Instruction
+		allInstrs(fn, func(in ssa.Instruction) {
+			if call, ok := in.(*ssa.Call); ok && calleeName(call) == "" && pathEndsWith(call.Call.Value, "cleanPortFunc") {
+				cb = append(cb, call)
+			}
+		})
+		rm := calls(fn, "os.Remove")
+		ok := len(cb) == 1 && len(rm) == 1
+		if ok {
+			ok = precedes(fn, cb, rm[0])
+		}
+		c.ob(rule, fn, "port mappings are cleaned before their record is deleted", nil, ok, "the cleanPortFunc callback (which reads the port file of the container) precedes os.Remove(file) on every path")
 	}
 	// R3: the docker wrapper: timeout before classification; the daemon is asked on every call
 	if fn := c.MustFn(rule, "pkg/api/docker", "(*DockerInterface).DockerInspectContainer"); fn != nil {
